@@ -23,6 +23,15 @@ def run(ctx):
     V.v10_param_map(ctx)
     V.v11_provider_results_not_written(ctx)
     ctx.floor("V10", 3)
+    # the recurrences themselves: provider, size, map and operation of each constructor
+    from ..engines import recurrences as N
+    N.n1_union(ctx)
+    N.n2_product(ctx)
+    N.n3_complement(ctx)
+    N.n4_quotient(ctx)
+    N.n5_count_lookup(ctx)
+    for r, k in (("N1", 2), ("N2", 3), ("N3", 3), ("N4", 10), ("N5", 3)):
+        ctx.floor(r, k)
     ctx.floor("V11", 2)
     # products count through utils.compositions: its enumeration must be complete and within bounds
     from ..engines import sizecheck as SC
